@@ -360,10 +360,12 @@ class MultiRelationLink(IRelationLink[TCircuitOperation], Generic[TCircuitOperat
         if len(self._reference_nodes) == 0:
             # raise NoReferenceOperationException(f"Expects at least 1 reference node, instead: {self._reference_nodes}.")
             return None
-        # Iterate over reference node and determine latest
+        # Iterate over reference node and determine latest.
+        # If multiple nodes end at the same (latest) time, the last listed one is used, such that whatever is
+        # chained behind this group (e.g. the next repetition) is also listed behind all of its (zero-duration) members.
         latest_node: TCircuitOperation = self._reference_nodes[0]
         for node in self._reference_nodes:
-            if node.end_time > latest_node.end_time:
+            if node.end_time >= latest_node.end_time:
                 latest_node = node
         return latest_node
 
